@@ -1,6 +1,6 @@
 """C16 -- partial SVD: shape predicates, cache coherence, clamps (structural clauses)."""
 from .facts import AnalysisBroken
-from . import c06
+from . import hygiene, c06
 from .sym import sym, show, atoms
 from .xeval import ev, CannotEval
 
@@ -15,7 +15,9 @@ EXPLANATION = (
     'sqrt(lambda) on the same grid (a clamp at zero is allowed); (D2) the cached eigenvectors are invalidated by '
     'every member that re-runs the inner solver and filled only when empty (matrix_U / matrix_V always describe the most recent '
     'compute()); (D3) matrix_U(k) / matrix_V(k) clamp k to min(k, nconv) before anything is sized by it, nconv is the value '
-    'returned by the inner compute(), and the inner solver is always run with the LargestAlge rule after a fresh init(). Does NOT '
+    'returned by the inner compute(), and the inner solver is always run with the LargestAlge rule after a fresh init(); (D4) no class keeps a copy of a `const Ref<const M>&` '
+    'constructor parameter in a Ref member unless every construction site passes a member of the constructing object: the stored matrix reference stays valid '
+    'for inputs that need an evaluated temporary (other storage order, expressions). Does NOT '
     'decide agreement with a reference SVD, orthonormality of the derived factor, or finiteness for rank-deficient input.')
 ASSUMPTIONS = ['the inner symmetric solver satisfies C01/C05']
 
@@ -262,3 +264,4 @@ def run(ctx):
     shape_predicates(ctx)
     c06.svd_cache(ctx)
     clamps(ctx)
+    hygiene.stored_ref_lifetime(ctx)
